@@ -247,7 +247,10 @@ _EXTRA = ['from s"SELECT [a x], b FROM t"\nderive c = 1\n', 'from s"SELECT \\"a\
           "from [{n = 1}]\nloop (filter n < 4 | select n = n + 1)\nsort n\n",
           # declarations directly under the header line, and a name that the header's own declaration `prql` must not hide (round-7 seeds C18-13, C18-14)
           "module helpers {\n  let bump = x -> x + 1\n}\nfrom t\nselect {y = helpers.bump a}\n", "type money = int\nfrom t\nselect {a}\n",
-          "from employees\nderive compiled_with = prql.version\nsort age\ntake 3\n"]
+          "from employees\nderive compiled_with = prql.version\nsort age\ntake 3\n",
+          # a comment-only line directly under the header line, followed by an annotated / a doc-commented declaration (round-8 seed C18-15: the line break of the comment line counts)
+          "# helpers\n@{binding_strength=11}\nlet plus_one = x -> x + 1\nfrom t\ntake 3\nselect (plus_one a) * 2\n",
+          "# helpers\n#! adds one\nlet plus_one = x -> x + 1\nfrom t\ntake 3\nselect {b = plus_one a}\n"]
 
 
 def sweep():
